@@ -46,8 +46,11 @@ def accel_decls():
 
 # loop bound kinds: run-time arguments, constant/argument mixes, and all-constant ranges incl. empty ones (lb > ub)
 BOUNDS = {"args": ("%lb", "%ub", "%st"), "c01": ("%c0", "%ub", "%c1"), "c0s": ("%c0", "%ub", "%st"),
-          "k42": ("%c4", "%c2", "%c1"), "k13": ("%c1", "%c3", "%c1"), "k50s2": ("%c5", "%c0", "%c2"), "k05s2": ("%c0", "%c5", "%c2")}
-ALL_BOUNDS = ["args", "c01", "c0s", "k42", "k13", "k50s2", "k05s2"]
+          "k42": ("%c4", "%c2", "%c1"), "k13": ("%c1", "%c3", "%c1"), "k50s2": ("%c5", "%c0", "%c2"), "k05s2": ("%c0", "%c5", "%c2"),
+          # exactly one trip, and two trips with a partial last step ((ub-lb)//step == 1)
+          "k01": ("%c0", "%c1", "%c1"), "k04s4": ("%c0", "%c4", "%c4"), "k03s2": ("%c0", "%c3", "%c2"), "k25s2": ("%c2", "%c5", "%c2")}
+ALL_BOUNDS = ["args", "c01", "c0s", "k42", "k13", "k50s2", "k05s2", "k01", "k04s4", "k03s2", "k25s2"]
+CONST_BOUNDS = ["k42", "k13", "k05s2", "k01", "k04s4", "k03s2", "k25s2"]
 
 
 class Render:
@@ -399,6 +402,21 @@ def program_set(tier, seed, want_calls=True):
             add((("cfg", "acc1", p1), ("for", "args", rl), ("cfg", "acc1", p2)))
             add((("for", "args", (("cfg", "acc1", p1), ("if", 1, rl, None), ("cfg", "acc1", p2))),))
             add((("cfg", "acc1", p1), ("rl", "acc1"), ("cfg", "acc1", p2), ("rl", "acc1")))
+    # loops with constant ranges (empty, one trip, two trips with a partial last step, more) around two configurations,
+    # with and without the first one already in effect before the loop
+    for bk in CONST_BOUNDS:
+        for p1 in range(3):
+            for p2 in range(3):
+                if p1 != p2:
+                    body = (("cfg", "acc1", p1), ("cfg", "acc1", p2))
+                    add((("cfg", "acc1", p1), ("for", bk, body)))
+                    add((("for", bk, body), ("cfg", "acc1", p1)))
+    # a conditional that configures the accelerator, followed by two (or three) configurations in the same block
+    for p1 in range(3):
+        for p2 in range(3):
+            for p3 in range(3):
+                add((("if", 0, (("cfg", "acc1", p1),), None), ("cfg", "acc1", p2), ("cfg", "acc1", p3)))
+                add((("if", 1, (("cfg", "acc1", p1),), (("cfg", "acc1", p3),)), ("cfg", "acc1", p2), ("cfg", "acc1", p3)))
     # two accelerators configured, then a call inside a conditional / loop followed by a new setup of only ONE of them,
     # then the other one is configured again behind it
     if want_calls:
